@@ -158,6 +158,10 @@ def run(ctx):
     fns = Fns()
     pr = Probes()
     pr.watch("ural.normalize_url:qsl_sort_key", want_args=False, lines=False)
+    if ctx.tier == "thorough":
+        # the C14 contracts also run on every value these workloads push through unquote / safely_quote / upper_quoted
+        from vf import contracts_quote as cq
+        cq.QuoteProbes(ctx, pr, prefix="C03:inner")
     pr.watch("ural.normalize_url:should_strip_query_item", want_args=False, lines=False)
     pr.watch("ural.fingerprint_url:fingerprint_url", want_args=False)
     pr.start()
